@@ -748,7 +748,7 @@ PROPS = {
     'C15': dict(lean_modules=['SfxProps.C15', 'SfxProps.C15Acc', 'SfxProps.C15Pairs'], bins=['math'], profiles=['rel'], gen=gen_C15, oracle=True),
     'C16': dict(lean_modules=['SfxProps.C16', 'SfxProps.C16Acc'], bins=['math'], profiles=['rel'], gen=gen_C16, oracle=True),
     'C17': dict(lean_modules=['SfxProps.C17'], bins=['math'], profiles=['rel'], gen=gen_C17, spec_ignore=r'spec=Ok_for_a_result_that_does_not_fit'),
-    'C08': dict(lean_modules=['SfxProps.C08', 'SfxProps.C08Holds'], bins=['text'], profiles=['chk', 'rel'], gen=gen_C08),
+    'C08': dict(lean_modules=['SfxProps.C08', 'SfxProps.C08Holds', 'SfxProps.C08Spec'], bins=['text'], profiles=['chk', 'rel'], gen=gen_C08),
     'C09': dict(lean_modules=['SfxProps.C09', 'SfxProps.C09Verdict'], bins=['text'], profiles=['chk', 'rel'], gen=gen_C09),
     'C11': dict(lean_modules=['SfxProps.C11', 'SfxProps.C11Bits'], bins=['arith', 'wrap', 'conv', 'math', 'text', 'codec', 'cast'], profiles=['chk', 'rel'], gen=gen_C11, spec_ignore=r'spec=Ok_for_a_result_that_does_not_fit',
                 rule='union of the request corpora of C01 C02 C06 C07 C18 C04 C05 C03 C12 C08 C09 C10 and the shift/bit-inspection family (sub-sampled in quick), each request executed by the harness built with and '
